@@ -58,6 +58,7 @@ type AddrV struct {
 	Obj  *Object
 	Path []int // path of the original pointer
 	Off  int64 // byte offset added to it
+	Sym  *term.T // symbolic byte offset added to it (layout-symbolic mode)
 	Nil  bool
 }
 
